@@ -17,6 +17,8 @@
 #include "celeritas/Quantities.hh"
 #include "celeritas/em/distribution/EnergyLossGammaDistribution.hh"
 #include "celeritas/em/distribution/EnergyLossGaussianDistribution.hh"
+#include "celeritas/em/distribution/BhabhaEnergyDistribution.hh"
+#include "celeritas/em/distribution/MollerEnergyDistribution.hh"
 #include "celeritas/em/distribution/TsaiUrbanDistribution.hh"
 #include "celeritas/random/Selector.hh"
 #include "celeritas/random/XorwowRngEngine.hh"
@@ -198,6 +200,18 @@ static string sample(string const& op, vecu const& p, Engine& rng)
     if (op == "tsai" && n == 2)
     {
         TsaiUrbanDistribution d(units::MevEnergy{D(p[0])}, units::MevMass{D(p[1])});
+        return vh::hexd(d(rng));
+    }
+    if (op == "moller" && n == 3)
+    {
+        MollerEnergyDistribution d(
+            units::MevMass{D(p[0])}, units::MevEnergy{D(p[1])}, units::MevEnergy{D(p[2])});
+        return vh::hexd(d(rng));
+    }
+    if (op == "bhabha" && n == 3)
+    {
+        BhabhaEnergyDistribution d(
+            units::MevMass{D(p[0])}, units::MevEnergy{D(p[1])}, units::MevEnergy{D(p[2])});
         return vh::hexd(d(rng));
     }
     if (op == "elgamma" && n == 2)
